@@ -27,7 +27,11 @@ def run_oracle(chk, rng, ncases, task, name, grounds, families=None):
             chk.add_case(name + ':' + json.dumps(x['spec'], sort_keys=True), True,
                          sample=dict(oracle=name, family=x['spec']['family'], cond=round(x.get('cond', 0), 1)))
             for b in x['bad']:
-                chk.violation(dict(stage=name, what=b.split(':')[0][:40]), b, x['spec'])
+                sig = dict(stage=name, what=b.split(':')[0][:40])
+                for fk, fv in (x.get('features') or {}).items():
+                    if fv:
+                        sig = dict(stage=name, **{fk: True})
+                chk.violation(sig, b, x['spec'])
     chk.stages[name] = dict(cases=n, skipped_outside_domain=sk)
 
 def zmat_cases(chk, rng, n, grounds, families=None):
